@@ -523,8 +523,9 @@ func (inp Input) ABIType(pos int) (int, atype) {
 		}
 		base = tuple(fields...)
 	case strings.HasPrefix(inp.Type, "bytes"):
+		size, _, _ := strings.Cut(strings.TrimPrefix(inp.Type, "bytes"), "[")
 		switch {
-		case strings.TrimSuffix(strings.TrimPrefix(inp.Type, "bytes"), "[") == "":
+		case size == "":
 			base = dynamic()
 		default:
 			base = static()
